@@ -30,7 +30,9 @@ def pure_predicates(prog):
         if f.cls is None:
             continue
         body = [x for x in f.node.body if not (isinstance(x, ast.Expr) and isinstance(x.value, ast.Constant))]
-        pure = len(f.params) == 1 and len(body) == 1 and isinstance(body[0], ast.Return) and isinstance(body[0].value, (ast.Compare, ast.BoolOp, ast.UnaryOp)) \
+        plain_field = len(f.params) == 1 and len(body) == 1 and isinstance(body[0], ast.Return) and isinstance(body[0].value, ast.Attribute) \
+            and isinstance(body[0].value.value, ast.Name) and body[0].value.value.id == f.params[0]       # `return self._flag`: cannot raise either
+        pure = plain_field or len(f.params) == 1 and len(body) == 1 and isinstance(body[0], ast.Return) and isinstance(body[0].value, (ast.Compare, ast.BoolOp, ast.UnaryOp)) \
             and not any(isinstance(x, (ast.Call, ast.Subscript, ast.BinOp, ast.Yield, ast.Await)) for x in ast.walk(body[0].value)) \
             and all(not isinstance(x, ast.Name) or x.id in (f.params[0], "None", "True", "False") for x in ast.walk(body[0].value))
         by_name.setdefault(f.name, []).append(pure)
